@@ -3,7 +3,8 @@
    [run_count] (marwood/src/vm/run.rs after the fixes f6f5af0 and 9a27905), for
    ANY table of builtin procedures [ob].                                         *)
 From MW Require Import Model.Base Model.Datum Model.VmTypes Model.VmBase Model.Vm Model.Builtins
-  Proofs.RunProofs Proofs.RunProofs2.
+  Proofs.RunProofs Proofs.RunProofs2 Proofs.MonoBase Proofs.MonoCompile Proofs.MonoStep Proofs.MonoBuiltins
+  Proofs.MonoAll Proofs.MonoExample.
 Open Scope N_scope.
 
 (* Whatever instruction failed, at whatever call depth, inside or outside a
@@ -160,3 +161,215 @@ Proof.
     eapply (fs_S other_builtin _ _ _ _ 100%nat rx_fail); [vm_compute; reflexivity|]. apply fs_0.
   - vm_compute. auto.
 Qed.
+
+
+(* =================================================================================
+   The stack capacity, UNCONDITIONALLY for the real builtin table [other_builtin]
+   (proofs: Proofs/MonoBase.v, MonoCompile.v, MonoStep.v, MonoBuiltins.v, MonoAll.v).
+   [cap_monotone other_builtin] is PROVED: every instruction of run_one (on its success and
+   on its error exit), every builtin of Model/Builtins.v + procedure.rs/ports.rs, the compiler
+   and prepare_eval leave `Stack.stack.len()` at least as large as it was.  Only Stack::push
+   changes it (doubling); invoking a continuation (restore_continuation) keeps it EXACTLY
+   (the model would panic 47 — split_at_mut — if the saved stack were longer than the vector;
+   it never is: C05_captured_live_later).  Nothing in the model can shrink the capacity.
+   ================================================================================= *)
+Theorem C07_cap_monotone :
+  (forall s r s', run_one other_builtin s = ROk r s' -> scap s <= scap s') /\
+  (forall s e m s', run_one other_builtin s = RErr e m s' -> scap s <= scap s') /\
+  (forall c s u s', prepare_eval c s = ROk u s' -> scap s <= scap s').
+Proof. exact cap_monotone_other. Qed.
+Print Assumptions C07_cap_monotone.
+
+(* the hypothesis of C07_failure_capacity_is_max / C07_k_failures_capacity, discharged *)
+Theorem C07_cap_monotone_other_builtin : cap_monotone other_builtin.
+Proof. exact cap_monotone_other. Qed.
+Print Assumptions C07_cap_monotone_other_builtin.
+
+Theorem C07_failure_capacity_is_max_unconditional : forall fuel c s e msg t s',
+  eval other_builtin fuel c s = ROk (Failed e msg (Some t)) s' ->
+  scap s <= scap s' /\
+  exists p n, prepare_eval c s = ROk tt p /\ scap p <= scap s' /\
+    forall j s_j, (j <= n)%nat -> steps other_builtin j p = Some s_j -> scap s_j <= scap s'.
+Proof. exact failure_capacity_is_max_other. Qed.
+Print Assumptions C07_failure_capacity_is_max_unconditional.
+
+Theorem C07_k_failures_capacity_unconditional : forall k s s',
+  fail_seq other_builtin k s s' -> scap s <= scap s'.
+Proof. exact k_failures_capacity_other. Qed.
+Print Assumptions C07_k_failures_capacity_unconditional.
+
+(* every exit of one instruction and of a whole Vm::eval (value, run-time failure,
+   compile-time failure, or the model's own Err exit) *)
+Theorem C07_step_capacity : forall s,
+  match run_one other_builtin s with
+  | ROk _ s' => scap s <= scap s' | RErr _ _ s' => scap s <= scap s' | _ => True end.
+Proof. exact step_capacity. Qed.
+Print Assumptions C07_step_capacity.
+
+Theorem C07_eval_capacity : forall fuel c s,
+  match eval other_builtin fuel c s with
+  | ROk _ s' => scap s <= scap s' | RErr _ _ s' => scap s <= scap s' | _ => True end.
+Proof. exact eval_capacity. Qed.
+Print Assumptions C07_eval_capacity.
+
+(* each builtin procedure, run on any machine *)
+Theorem C07_builtin_capacity : forall b s,
+  match run_builtin other_builtin b s with
+  | ROk _ s' => scap s <= scap s' | RErr _ _ s' => scap s <= scap s' | _ => True end.
+Proof.
+  intros b s. pose proof (km_run_builtin other_builtin km_other_builtin b s) as H.
+  destruct (run_builtin other_builtin b s); unfold rpost in H; try exact I; exact (km_cap _ _ H).
+Qed.
+Print Assumptions C07_builtin_capacity.
+
+Theorem C07_restore_continuation_keeps_capacity : forall cid s u s',
+  restore_continuation cid s = ROk u s' -> scap s' = scap s.
+Proof. exact restore_continuation_capacity. Qed.
+Print Assumptions C07_restore_continuation_keeps_capacity.
+
+(* =================================================================================
+   The ERROR path of prepare_eval (read/compile failure; vm/mod.rs:99-107 returns before
+   `self.ip = ...`).  The compiler works on the heap, the Rc tables and the global
+   environment only: stack contents, capacity, sp, bp, ep, ip, acc and the output log are
+   UNTOUCHED; what a failed compilation does leave behind: heap cells (interned symbols,
+   quoted data, already finished inner lambdas), fresh Rc objects, and fresh global slots
+   holding Undefined appended for the global symbols met before the error — no existing
+   global slot changes, no continuation object is touched.
+   ================================================================================= *)
+Theorem C07_prepare_eval_error_frame : forall e s code msg s',
+  prepare_eval e s = RErr code msg s' ->
+  stack s' = stack s /\ scap s' = scap s /\ sp s' = sp s /\ bp s' = bp s /\ ep s' = ep s /\
+  ip s' = ip s /\ acc s' = acc s /\ out_log s' = out_log s /\
+  (exists k, g_slots s' = g_slots s ++ repeat VUndef k) /\ (exists nb, g_bind s' = nb ++ g_bind s) /\
+  next_id (st s) <= next_id (st s') /\
+  (forall j, j < next_id (st s) -> tget (conts (st s')) j = tget (conts (st s)) j).
+Proof.
+  intros e s code msg s' H. apply prepare_eval_err_sframe in H.
+  destruct H as [A1 A2 A3 A4 A5 A6 A7 A8 [A9 A9'] A10 A11]. auto 12.
+Qed.
+Print Assumptions C07_prepare_eval_error_frame.
+
+(* a successful prepare_eval changes %ip and nothing else among registers and stack *)
+Theorem C07_prepare_eval_ok_frame : forall e s u s',
+  prepare_eval e s = ROk u s' ->
+  stack s' = stack s /\ scap s' = scap s /\ sp s' = sp s /\ bp s' = bp s /\ ep s' = ep s /\
+  acc s' = acc s /\ out_log s' = out_log s.
+Proof.
+  intros e s u s' H. destruct (prepare_eval_ok_frame e s u s' H) as (A1 & A2 & A3 & A4 & A5 & A6 & A7 & _).
+  auto 8.
+Qed.
+Print Assumptions C07_prepare_eval_ok_frame.
+
+(* at the level of Vm::eval: Failed with NO trace = the compile-time failure *)
+Theorem C07_compile_failure_is_prepare_error : forall ob fuel c s e msg s1,
+  eval ob fuel c s = ROk (Failed e msg None) s1 <-> prepare_eval c s = RErr e msg s1.
+Proof.
+  intros ob fuel c s e msg s1. split; [apply eval_compile_failure_inv|].
+  intros H. unfold eval. rewrite H. reflexivity.
+Qed.
+Print Assumptions C07_compile_failure_is_prepare_error.
+
+Theorem C07_same_regs_stack_unfold : forall s s',
+  same_regs_stack s s' <->
+  (stack s' = stack s /\ scap s' = scap s /\ sp s' = sp s /\ bp s' = bp s /\ ep s' = ep s /\
+   ip s' = ip s /\ acc s' = acc s /\ out_log s' = out_log s).
+Proof. intros s s'. reflexivity. Qed.
+Print Assumptions C07_same_regs_stack_unfold.
+
+Theorem C07_compile_failure_frame : forall ob fuel c s e msg s',
+  eval ob fuel c s = ROk (Failed e msg None) s' ->
+  same_regs_stack s s' /\
+  (exists k, g_slots s' = g_slots s ++ repeat VUndef k) /\ (exists nb, g_bind s' = nb ++ g_bind s) /\
+  next_id (st s) <= next_id (st s') /\
+  (forall j, j < next_id (st s) -> tget (conts (st s')) j = tget (conts (st s)) j).
+Proof. exact compile_failure_frame. Qed.
+Print Assumptions C07_compile_failure_frame.
+
+(* ---- sequences that MIX run-time and compile-time failures.
+   [mfail_seq ob k r s s']: k failing evaluations (any forms, any fuel), chained, r of them
+   run-time failures (Failed _ _ (Some t)), k - r compile-time failures (Failed _ _ None). *)
+Theorem C07_mfail_seq_unfold : forall ob k r s s',
+  mfail_seq ob k r s s' <->
+  match k with
+  | O => r = O /\ s' = s
+  | S k' =>
+      (exists r' s1 fuel c e msg t, r = S r' /\
+         eval ob fuel c s = ROk (Failed e msg (Some t)) s1 /\ mfail_seq ob k' r' s1 s') \/
+      (exists s1 fuel c e msg,
+         eval ob fuel c s = ROk (Failed e msg None) s1 /\ mfail_seq ob k' r s1 s')
+  end.
+Proof.
+  intros ob k r s s'. split.
+  - intros H. destruct H as [s|k r s s1 s2 fuel c e msg t He Hs|k r s s1 s2 fuel c e msg He Hs].
+    + auto.
+    + left. exists r, s1, fuel, c, e, msg, t. auto.
+    + right. exists s1, fuel, c, e, msg. auto.
+  - destruct k as [|k].
+    + intros [-> ->]. constructor.
+    + intros [(r' & s1 & fuel & c & e & msg & t & -> & He & Hs)|(s1 & fuel & c & e & msg & He & Hs)].
+      * eapply mfs_run; eassumption.
+      * eapply mfs_compile; eassumption.
+Qed.
+Print Assumptions C07_mfail_seq_unfold.
+
+(* it extends fail_seq *)
+Theorem C07_fail_seq_is_mixed : forall ob k s s', fail_seq ob k s s' -> mfail_seq ob k k s s'.
+Proof. exact fail_seq_mfail_seq. Qed.
+Print Assumptions C07_fail_seq_is_mixed.
+
+(* as soon as ONE of the k failures is a run-time failure: sp = 0, bp = 0, ep = usize::MAX,
+   acc = Undefined, empty stack — wherever the compile-time failures sit in the sequence *)
+Theorem C07_mixed_failures_no_accumulation : forall ob k r s s',
+  mfail_seq ob k r s s' -> (0 < r)%nat ->
+  sp s' = 0 /\ bp s' = 0 /\ ep s' = USIZE_MAX /\ acc s' = VUndef /\ stack s' = tempty.
+Proof. exact mixed_no_accumulation. Qed.
+Print Assumptions C07_mixed_failures_no_accumulation.
+
+(* only compile-time failures: registers, stack and capacity are those of the start *)
+Theorem C07_compile_failures_leave_registers : forall ob k s s',
+  mfail_seq ob k 0 s s' -> same_regs_stack s s'.
+Proof. exact mixed_compile_only. Qed.
+Print Assumptions C07_compile_failures_leave_registers.
+
+(* a machine between evaluations stays so through ANY mix of failures, for every k *)
+Theorem C07_mixed_failures_keep_reset : forall ob k r s s',
+  mfail_seq ob k r s s' ->
+  (sp s = 0 /\ bp s = 0 /\ ep s = USIZE_MAX /\ acc s = VUndef /\ stack s = tempty) ->
+  sp s' = 0 /\ bp s' = 0 /\ ep s' = USIZE_MAX /\ acc s' = VUndef /\ stack s' = tempty.
+Proof. exact mixed_keeps_reset. Qed.
+Print Assumptions C07_mixed_failures_keep_reset.
+
+Theorem C07_mixed_failures_capacity : forall k r s s',
+  mfail_seq other_builtin k r s s' -> scap s <= scap s'.
+Proof. exact mixed_capacity_other. Qed.
+Print Assumptions C07_mixed_failures_capacity.
+
+(* non-vacuity.  (if newsym (if)) fails at COMPILE time after get_binding has appended a
+   slot for newsym: no trace, one more (Undefined) global slot, registers as before.
+   Then: run-time failure, compile-time failure, run-time failure, compile-time failure on
+   vm_empty 8192 is a mixed sequence with k = 4, r = 2; it ends with sp = bp = 0, capacity 256,
+   and the global x of the run-time failing form still bound. *)
+Example C07_example_compile_failure :
+  match eval other_builtin 100 mx_cfail (vm_empty 8192) with
+  | ROk (Failed _ _ None) s' =>
+      g_slots (vm_empty 8192) = [] /\ g_slots s' = [VUndef] /\ sp s' = 0 /\ scap s' = 256 /\
+      ip s' = ip (vm_empty 8192) /\ 0 < next_id (st s') + hlen (hp s')
+  | _ => False
+  end.
+Proof. vm_compute. repeat split. Qed.
+
+Example C07_example_mixed_failures :
+  exists s4, mfail_seq other_builtin 4 2 (vm_empty 8192) s4 /\ sp s4 = 0 /\ bp s4 = 0 /\ scap s4 = 256 /\
+    length (g_slots s4) = 3%nat.
+Proof.
+  eexists. split.
+  - eapply (mfs_run other_builtin _ _ _ _ _ 100%nat rx_fail); [vm_compute; reflexivity|].
+    eapply (mfs_compile other_builtin _ _ _ _ _ 100%nat mx_cfail); [vm_compute; reflexivity|].
+    eapply (mfs_run other_builtin _ _ _ _ _ 100%nat rx_fail); [vm_compute; reflexivity|].
+    eapply (mfs_compile other_builtin _ _ _ _ _ 100%nat mx_cfail); [vm_compute; reflexivity|]. apply mfs_0.
+  - vm_compute. auto.
+Qed.
+
+Example C07_example_cap_monotone_discharges :
+  forall s3, fail_seq other_builtin 3 (vm_empty 8192) s3 -> 256 <= scap s3.
+Proof. intros s3 H. exact (C07_k_failures_capacity other_builtin 3 _ s3 C07_cap_monotone_other_builtin H). Qed.
